@@ -7,7 +7,7 @@ sys.path.insert(0, os.path.dirname(os.path.abspath(__file__)))
 import vlib, printer
 from props import c07
 
-r = vlib.run_tlc("EditSwap", "EditSwap_liverun", workers=8, timeout=3000)
+r = vlib.run_tlc("EditSwap", "EditSwap_live_run", workers=8, timeout=3000)
 reps = sorted(r.tagged["REPLAY"], key=lambda x: json.dumps(x, sort_keys=True))
 picked = {}
 for rep in reps:
